@@ -52,7 +52,7 @@ from fortls.parsers.internal.intrinsics import (
     load_intrinsics,
     set_lowercase_intrinsics,
 )
-from fortls.parsers.internal.parser import FortranFile, get_line_context
+from fortls.parsers.internal.parser import FortranFile, get_line_context, splitlines
 from fortls.parsers.internal.scope import Scope
 from fortls.parsers.internal.use import Use
 from fortls.parsers.internal.utilities import (
@@ -1363,6 +1363,23 @@ class LangServer:
 
     def serve_onOpen(self, request: dict):
         self.serve_onSave(request, did_open=True)
+        # The text the editor holds counts, it can differ from the file on disk
+        text_doc: dict = request["params"]["textDocument"]
+        text = text_doc.get("text")
+        file_obj = self.workspace.get(path_from_uri(text_doc["uri"]))
+        if (
+            isinstance(text, str)
+            and file_obj is not None
+            and splitlines(text) != file_obj.contents_split
+        ):
+            self.serve_onChange(
+                {
+                    "params": {
+                        "textDocument": {"uri": text_doc["uri"]},
+                        "contentChanges": [{"text": text}],
+                    }
+                }
+            )
 
     def serve_onClose(self, request: dict):
         self.serve_onSave(request, did_close=True)
